@@ -10,6 +10,7 @@ import (
 	"encoding/hex"
 	"encoding/json"
 	"fmt"
+	treasurytypes "github.com/palomachain/paloma/v2/x/treasury/types"
 	"strings"
 	"testing"
 
@@ -405,6 +406,18 @@ func TestC06_StoredSignaturesAlwaysValid(t *testing.T) {
 					freedKeys = append(freedKeys, old)
 					retiredKeys[i] = append(retiredKeys[i], old)
 				}
+				checkAll(t)
+			},
+			// a relayer re-prices a chain while messages assigned to it (signed or not, with or without an elected estimate)
+			// wait in the queue: whatever that does to their fees, stored signatures must keep matching the stored bytes
+			"changeRelayerFee": func(t *rapid.T) {
+				v := c.Vals[rapid.IntRange(0, n-1).Draw(t, "val")]
+				mult := rapid.SampledFrom([]string{"1.1", "2", "3.7", "0.5"}).Draw(t, "mult")
+				ref := rapid.SampledFrom([]string{c06Chain, c06Chain2}).Draw(t, "chain")
+				oks := block(t, c.MustSign(v.Actor, &treasurytypes.MsgUpsertRelayerFee{Metadata: chain.MD(v.Actor), FeeSetting: &treasurytypes.RelayerFeeSetting{ValAddress: v.Val().String(),
+					Fees: []treasurytypes.RelayerFeeSetting_FeeSetting{{ChainReferenceId: ref, Multiplicator: sdkmath.LegacyMustNewDecFromStr(mult)}}}}))
+				log = append(log, fmt.Sprintf("fee(v%d,%s,%s)=%v", v.Index, ref, mult, oks[0]))
+				block(t)
 				checkAll(t)
 			},
 			"advance": func(t *rapid.T) {
